@@ -831,7 +831,7 @@ func decide(o *Obligation, cfg *SolverCfg, known []KnownFinding, prop string, op
 	var ws []*Term
 	var fs []KnownFinding
 	for _, k := range known {
-		if k.Obligation != o.Name || k.Status != "open" {
+		if k.Obligation != o.Name || k.Status != "open" || (k.Property != "" && k.Property != prop) {
 			continue
 		}
 		termMu.Lock()
